@@ -40,7 +40,17 @@ where
         .replace("^-", "^@")
         .replace("-", "+-")
         .replace("^@", "^-"); // ^- -> ^@ protects negative exponents
-    let parts: Vec<&str> = normalized.split('+').filter(|s| !s.is_empty()).collect();
+    let mut parts: Vec<&str> = normalized.split('+').collect();
+
+    // A leading sign (or an empty input) leaves one empty part in front
+    if parts.first() == Some(&"") {
+        parts.remove(0);
+    }
+
+    // Doubled or dangling operators
+    if parts.iter().any(|s| s.is_empty() || *s == "-") {
+        return Err(PolynomialError::PolynomialSyntaxError);
+    }
 
     let mut parsed = Vec::new();
     let mut coeff = String::new();
